@@ -418,3 +418,20 @@ package client
 //@   modifies everything
 //@   loop 2 invariant [recorded] 0 <= rangeindex + 1 && rangeindex + 1 <= len(cmd.subscriptions) && forall j int {cmd.subscriptions[j]} :: 0 <= j && j <= rangeindex ==> present[s.subscriptions][cmd.subscriptions[j].Topic]
 //@   loop 3 invariant [dropped] 0 <= rangeindex + 1 && rangeindex + 1 <= len(cmd.topics) && forall j int {cmd.topics[j]} :: 0 <= j && j <= rangeindex ==> !present[s.subscriptions][cmd.topics[j]]
+
+// supervisor (C17, partial contract): every connection attempt gets a kill
+// channel of its own - the callback installed by connect closes it whenever
+// that client reports an error, also for a client that never reaches the
+// dispatcher (refused CONNACK, failure during resubscribe), so a channel
+// carried over from an earlier attempt may already be closed: the next
+// dispatcher would leave at once (or the callback would close it twice).
+// chclosed is set by every close(ch) in the package; a channel made after
+// the last unknown call cannot be closed yet.
+//@ ghost chclosed map[ref]bool
+//@ func chan.close(ch int)
+//@   ensures chclosed[ch]
+//@   modifies chclosed[ch]
+//@ func (s *Service) supervisor() (err error)
+//@   partial
+//@   at call 1 connect assert [own-kill-channel] !chclosed[kill]
+//@   modifies everything
